@@ -15,4 +15,8 @@ for name, mod in sorted(prog.modules.items()):
         if isinstance(node, core.FUNC):
             out[f'{name}:{qual}'] = core.own_locals(node)
 json.dump(out, open(os.path.join(V, 'fv', 'pinned_locals.json'), 'w'), indent=0, sort_keys=True)
-print(len(out), 'functions')
+import gzip
+srcs = {name: mod.source for name, mod in sorted(prog.modules.items())}
+with gzip.open(os.path.join(V, 'fv', 'pinned_src.json.gz'), 'wt', encoding='utf-8', compresslevel=9) as fh:
+    json.dump(srcs, fh, sort_keys=True)
+print(len(out), 'functions', len(srcs), 'modules')
